@@ -1,6 +1,7 @@
 import FxVerif.Proofs.C13Fits
 import FxVerif.Model.C07
 import FxVerif.Proofs.C07GovFit
+import FxVerif.Proofs.C07Escrow
 /-!
 # C07 — block processing never halts: the crosschain `EndBlocker` half
 
@@ -231,5 +232,98 @@ example : ParamsFit ⟨10000 * 10 ^ 18, 10, 8 * 10 ^ 17, 20000, 10 ^ 18, 1814400
 example : sEx.height = 3 ∧ (sEx.calls.map (·.height)) = [1] := by decide
 example : ((block sEx 5).1.oracles.map (fun p => (p.2.online, p.2.slashTimes))) = [(false, 1)] ∧ (block sEx 5).2 = .ok := by decide
 example : endBlockerSites.length ≥ 20 := by decide
+
+/-! ## gov end-blocker: the deposit escrow (refund / burn cannot fail)
+
+`Model.C07Escrow`: the gov module account, the deposit records, and the three things the end-blocker does to them — settle an
+expired / rejected proposal, and for a passing proposal settle, run the messages (signer = the gov account) on a cache, commit
+or discard.  A refund the account cannot pay is the error that halts the chain. -/
+end FxVerif.Props.C07
+namespace FxVerif.Props.C07
+section escrow
+open FxVerif.Model.C07Escrow FxVerif.Proofs.C07Escrow FxVerif.Model.C07
+
+/-- obligation over the regenerated `AddDeposit` statement order: the gov module account is refused as depositor before
+anything is transferred or recorded (fix 45d0bc2) -/
+theorem add_deposit_code_facts : govEscrowCode.addDepositRefusesGov = true := by decide
+
+/-- **with the escrow check in the pass branch the gov end-blocker never fails on a refund or burn**, for every history of
+deposits, expiries, rejections and passed proposals carrying ANY messages (spending, depositing from the gov account,
+failing …): the module account always covers the recorded deposits -/
+theorem gov_escrow_guarded_never_halts (c : Code) (hc : c.passChecksEscrow = true) (ops : List Op) :
+    (run c ops init).halted = false ∧ total (run c ops init).deps ≤ (run c ops init).bal :=
+  let h := run_inv_guarded hc ops init inv_init
+  ⟨h.2, h.1⟩
+
+/-- the code after 45d0bc2 without the check: total as long as no proposal message pays out of the gov account -/
+theorem gov_escrow_no_spend_never_halts (c : Code) (hc : c.addDepositRefusesGov = true) (ops : List Op)
+    (hs : ops.all opSpendFree = true) :
+    (run c ops init).halted = false ∧ total (run c ops init).deps ≤ (run c ops init).bal :=
+  let h := run_inv_noSpend hc ops hs init inv_init
+  ⟨h.2, h.1⟩
+
+/-- for the regenerated code, whichever guards it has: histories without a paying message never halt -/
+theorem gov_endblock_escrow_total_no_spend (ops : List Op) (hs : ops.all opSpendFree = true) :
+    (run govEscrowCode ops init).halted = false :=
+  (gov_escrow_no_spend_never_halts govEscrowCode add_deposit_code_facts ops hs).1
+
+/-- **gov end-blocker totality for the code as it is (no escrow check in the pass branch) — PARTIAL**: the refunds and burns of
+every history succeed under the hypothesis that the messages of no passed proposal leave the gov account with less than the open
+deposits.  Missing for the full statement: that hypothesis is NOT guaranteed by the code — `gov_escrow_spend_halts_unguarded`
+below is a history that violates it (known finding "gov escrow spent by a proposal message", fixes/C07-gov-escrow-spend.md);
+with the proposed repair it becomes `gov_escrow_guarded_never_halts`, without hypothesis. -/
+theorem gov_endblock_escrow_total_partial (ops : List Op) (h : PassesKeepCovered govEscrowCode ops init) :
+    (run govEscrowCode ops init).halted = false ∧ total (run govEscrowCode ops init).deps ≤ (run govEscrowCode ops init).bal :=
+  let r := run_inv_partial (c := govEscrowCode) (by decide) ops init inv_init h
+  ⟨r.2, r.1⟩
+
+/-- a refund fails exactly when the account holds less than the deposits of that proposal — the order in which the store
+walk meets the records is irrelevant -/
+theorem gov_refund_fails_iff (pid : Nat) (d : List (Nat × Nat)) (b : Nat) :
+    settle pid d b = none ↔ b + total (without pid d) < total d := settle_none_iff pid d b
+
+/-- the hypothesis of `gov_escrow_guarded_never_halts` cannot be dropped: WITHOUT the check a passed `bank.MsgSend{from: gov}`
+halts the end-blocker when the next proposal ends (fixes/C07-gov-escrow-spend.md: proposal 1 with a 10000 deposit sends 1000,
+proposal 2 holds a 1000 deposit) -/
+theorem gov_escrow_spend_halts_unguarded :
+    (run { addDepositRefusesGov := true, passChecksEscrow := false } [.deposit 1 10000, .deposit 2 1000, .pass 1 [.spend 1000], .settle 2] init).halted = true := by decide
+
+/-- … and without the refusal in `AddDeposit` a passed `MsgDeposit{depositor: gov}` does (fixes/C07-gov-self-deposit.md) -/
+theorem gov_escrow_self_deposit_halts_unguarded :
+    (run { addDepositRefusesGov := false, passChecksEscrow := false } [.deposit 1 10000, .deposit 2 1000, .pass 1 [.govDeposit 2 500], .settle 2] init).halted = true := by decide
+
+/-- obligation over the regenerated `case passes:` of gov.EndBlocker: nothing but the classified statements (cache context, message
+list, message loop, the escrow check on the cache, `if err == nil { … writeCache() … } else { FAILED }`), and the only `writeCache()` sits
+inside that `if`, after the message loop — what `passMsgs` models as "discard on failure" -/
+theorem pass_branch_code_facts :
+    FxVerif.Gen.C07.govPassBranch.all (fun w => ["cache", "getMsgs", "getMsgsFail", "msgLoop", "commitIfOk", "check:DepositsCovered"].contains w) = true ∧
+      comesBefore "cache" "msgLoop" FxVerif.Gen.C07.govPassBranch = true ∧
+      comesBefore "msgLoop" "commitIfOk" FxVerif.Gen.C07.govPassBranch = true := by decide
+
+/-- obligation over the regenerated order of the tallied-proposal callback: the deposits are refunded / burned (unless an
+expedited proposal is converted) BEFORE the outcome switch runs the messages -/
+theorem settle_order_code_facts : govEscrowCode.settleBeforeMsgs = true := by decide
+
+/-- the ORDER matters without the check: were the deposits settled only after the messages, a passing proposal's own message
+could spend the proposal's own deposit and the refund would fail in the very same block (one proposal suffices) -/
+theorem gov_escrow_settle_order_matters :
+    (run { addDepositRefusesGov := true, passChecksEscrow := false, settleBeforeMsgs := false } [.deposit 1 1000, .pass 1 [.spend 1000]] init).halted = true ∧
+    (run { addDepositRefusesGov := true, passChecksEscrow := false, settleBeforeMsgs := true } [.deposit 1 1000, .pass 1 [.spend 1000]] init).halted = false := by decide
+
+-- non-vacuity: the same two histories complete under the check (the carrier proposal FAILS, nothing is written)
+example : (run { addDepositRefusesGov := true, passChecksEscrow := true } [.deposit 1 10000, .deposit 2 1000, .pass 1 [.spend 1000], .settle 2] init) = { bal := 0, deps := [], halted := false } := by decide
+example : (run { addDepositRefusesGov := false, passChecksEscrow := true } [.deposit 1 10000, .deposit 2 1000, .pass 1 [.govDeposit 2 500], .settle 2] init) = { bal := 0, deps := [], halted := false } := by decide
+-- a spend that leaves the escrow covered is committed (the account holds 300 more than the deposits)
+example : (run { addDepositRefusesGov := true, passChecksEscrow := true } [.deposit 1 100, .deposit 2 1000, .pass 1 [.payIn 300, .spend 200], .settle 2] init) = { bal := 100, deps := [], halted := false } := by decide
+example : ([Op.deposit 1 5, .pass 1 [.noop, .payIn 3, .govDeposit 2 1], .settle 2] : List Op).all opSpendFree = true := by decide
+-- the hypothesis of the partial theorem holds for a history whose passed proposal spends only a surplus …
+example : PassesKeepCovered { addDepositRefusesGov := true, passChecksEscrow := false }
+    [.deposit 1 100, .deposit 2 1000, .pass 1 [.payIn 300, .spend 200], .settle 2] init := by
+  simp [PassesKeepCovered, step, init, settle, without, passMsgs, execMsgs, execMsg, total]
+-- … and fails for the witness history (the spend reaches into proposal 2's deposit)
+example : ¬ PassesKeepCovered { addDepositRefusesGov := true, passChecksEscrow := false }
+    [.deposit 1 10000, .deposit 2 1000, .pass 1 [.spend 1000], .settle 2] init := by
+  simp [PassesKeepCovered, step, init, settle, without, passMsgs, execMsgs, execMsg, total]
+end escrow
 
 end FxVerif.Props.C07
